@@ -1201,6 +1201,9 @@ func runIn(sc *Scenario, res *core.Result, verbose bool) {
 	n := simnet.New(k)
 	n.Stream = simnet.StreamLink{MinDelay: time.Duration(sc.DelayMs) * time.Millisecond, Jitter: time.Duration(sc.DelayMs) * time.Millisecond, SegMode: sc.SegMode, ShortRead: sc.ShortRead}
 	n.CloseYields = core.Mode == "instr"
+	if sc.RunSeed%8 == 0 {
+		n.CloseErr = "cli" // closing the receiver's connection reports an error (it is closed all the same)
+	}
 	x := &run{sc: sc, k: k, n: n, res: res, qid: uint16(4000 + sc.RunSeed%1000)}
 	cli, relayC := n.Pair(true)
 	x.cliConn = cli
